@@ -50,6 +50,10 @@ class Unsupported(AnalysisError):
     pass
 
 
+class DataBranch(Exception):
+    """a branch of the selection fragment is decided by a measured quantity (candidate radius, grid spacing)"""
+
+
 class Raised(Exception):
     def __init__(self, name):
         self.name = name
@@ -153,7 +157,7 @@ class Interp:
             if (l is TOP or r is TOP) and isinstance(op, (ast.Is, ast.IsNot)) and (l is None or r is None):
                 return isinstance(op, ast.IsNot)  # a measured number is not None
             if l is TOP or r is TOP:
-                raise Unsupported(f"CLASSSEL: test `{U(n)}` depends on a value that is not part of the request", rule="CLASSSEL")
+                raise DataBranch(U(n))
             if isinstance(op, ast.Is):
                 return l is r if r is None else l == r
             if isinstance(op, ast.IsNot):
@@ -242,6 +246,13 @@ class Interp:
                 callee_ = None
             if (callee_ or "").startswith("droplets.") and not (callee_ or "").split(".")[-1].startswith("_"):
                 return TOP
+            # an element-wise numpy function of a measured quantity is a measured quantity
+            if (f.startswith("np.") or f.startswith("numpy.")) and f.split(".")[-1] in ("minimum", "maximum", "clip", "fmin", "fmax", "round", "abs", "sqrt", "floor", "ceil") and n.args and not n.keywords:
+                vals = [self.ev(a) for a in n.args]
+                if any(v is TOP for v in vals):
+                    return TOP
+                if all(isinstance(v, (int, float)) and not isinstance(v, bool) for v in vals) and f.split(".")[-1] in ("minimum", "maximum", "fmin", "fmax"):
+                    return (min if f.split(".")[-1] in ("minimum", "fmin") else max)(*vals)
             raise Unsupported(f"CLASSSEL: call `{U(n)[:50]}` not interpretable", rule="CLASSSEL")
         raise Unsupported(f"CLASSSEL: expression `{U(n)[:50]}` not interpretable", rule="CLASSSEL")
 
@@ -507,6 +518,9 @@ def check_classsel(ctx: Ctx):
                         got = ("TypeError", d.cls, tuple(sorted(extra)))
         except Raised as r:
             got = (r.name,)
+        except DataBranch as db:
+            # one class and one layout per result: what a droplet is converted to may not depend on what was measured for it
+            got = (f"decided per droplet by `{db}` (a measured quantity, not part of the request)",)
         except Unsupported:
             if not foreign:
                 raise
